@@ -444,79 +444,118 @@ func Solve(o *Obligation, timeoutS int, confirm bool) *Result {
 	if want == "sat" && timeoutS > 3 {
 		timeoutS = 3 // satisfiability probes: cheap attempt only, "undecided" is not an alarm
 	}
-	for i, sp := range solvers {
-		t := timeoutS
-		if i > 0 {
-			t = timeoutS / 2
-			if t < 2 {
-				t = 2
-			}
-		}
-		st, out, secs := runSolver(sp, query, t, o.Name)
-		r.Seconds += secs
-		r.Tried = append(r.Tried, fmt.Sprintf("%s:%s:%.2fs", sp.name, st, secs))
+	record := func(name, st, out string, secs float64) bool {
+		// returns true when the answer is decisive
+		r.Tried = append(r.Tried, fmt.Sprintf("%s:%s:%.2fs", name, st, secs))
 		if st == "unsat" || st == "sat" {
-			r.Status, r.Solver, r.Output = st, sp.name, out
-			if st == "sat" || (st != want) {
+			if r.Status == "unsat" || r.Status == "sat" {
+				return true // already decided by a faster run
+			}
+			r.Status, r.Solver, r.Output = st, strings.TrimPrefix(name[strings.LastIndex(name, "/")+1:], ""), out
+			if st == "sat" || st != want {
 				r.Model = parseModel(out)
 			}
-			break
+			return true
 		}
 		if st == "error" {
-			r.Errors = append(r.Errors, sp.name+": "+strings.TrimSpace(firstLines(out, 3)))
+			r.Errors = append(r.Errors, name+": "+strings.TrimSpace(firstLines(out, 3)))
 			if r.Output == "" {
 				r.Output = out
 			}
 		}
-		if (st == "unknown") && r.Model == nil {
+		if st == "unknown" && r.Model == nil {
 			// candidate model (may be spurious); kept for replay attempts
 			r.Model = parseModel(out)
 			r.Output = out
 		}
-		r.Status = st
-		r.Solver = sp.name
+		if r.Status != "unsat" && r.Status != "sat" {
+			r.Status = st
+			r.Solver = name
+		}
+		return false
 	}
-	if want == "unsat" && (r.Status == "timeout" || r.Status == "unknown") && !noRetry && !o.NoRetry {
-		// Undecided within the ordinary budget.  Before this is reported, give the obligation a longer budget with three
-		// differently seeded runs side by side: solver run time on quantified goals varies with declaration order and
-		// seed, and an obligation near the budget must not turn into an alarm on code where it holds.
-		ext := 4 * timeoutS
-		if ext < 30 {
-			ext = 30
-		}
-		if ext > 120 {
-			ext = 120
-		}
-		type rr struct {
-			st, out, tag string
-			secs         float64
-		}
-		ch := make(chan rr, 3)
-		rctx, rcancel := context.WithCancel(context.Background())
-		defer rcancel()
-		for k := 1; k <= 3; k++ {
-			k := k
-			sp := solverSpec{"z3-new", func(f string, t int) []string {
-				return []string{"z3-new", fmt.Sprintf("smt.random_seed=%d", k*17), fmt.Sprintf("sat.random_seed=%d", k*17), fmt.Sprintf("-T:%d", t), f}
-			}}
-			go func() {
-				st, out, secs := runSolverCtx(rctx, sp, query, ext, fmt.Sprintf("%s.retry%d", o.Name, k))
-				ch <- rr{st, out, fmt.Sprintf("retry%d/z3-new", k), secs}
-			}()
-		}
-		for k := 0; k < 3; k++ {
-			x := <-ch
-			r.Tried = append(r.Tried, fmt.Sprintf("%s:%s:%.2fs", x.tag, x.st, x.secs))
-			if x.secs > r.Seconds {
-				r.Seconds = x.secs
-			}
-			if (x.st == "unsat" || x.st == "sat") && r.Status != "unsat" && r.Status != "sat" {
-				r.Status, r.Solver, r.Output = x.st, "z3-new", x.out
-				if x.st == "sat" {
-					r.Model = parseModel(x.out)
+	sequential := want == "sat" || noRetry || o.NoRetry
+	if sequential {
+		// satisfiability probes, known findings and quick mutant hunts: the plain portfolio, one solver after the other
+		for i, sp := range solvers {
+			t := timeoutS
+			if i > 0 {
+				t = timeoutS / 2
+				if t < 2 {
+					t = 2
 				}
-				rcancel() // decided: the other seeds are no longer needed
 			}
+			st, out, secs := runSolver(sp, query, t, o.Name)
+			r.Seconds += secs
+			if record(sp.name, st, out, secs) {
+				break
+			}
+		}
+	} else {
+		// Stage 1: the default solver with a short budget decides almost everything.
+		t1 := timeoutS
+		if t1 > 4 {
+			t1 = 4
+		}
+		st, out, secs := runSolver(solvers[0], query, t1, o.Name)
+		r.Seconds += secs
+		if !record(solvers[0].name, st, out, secs) {
+			// Stage 2: undecided.  Solver run time on quantified goals varies wildly with declaration order and seed (the
+			// same goal takes 0.4 s with one seed and a minute with another), and an obligation near the budget must not turn
+			// into an alarm on code where it holds: race three differently seeded runs and the two other solvers side by
+			// side with an extended budget; the first decisive answer wins and stops the rest.
+			ext := 4 * timeoutS
+			if ext < 30 {
+				ext = 30
+			}
+			if ext > 120 {
+				ext = 120
+			}
+			type rr struct {
+				st, out, tag string
+				secs         float64
+			}
+			var racers []solverSpec
+			var tags []string
+			var budgets []int
+			for k := 1; k <= 3; k++ {
+				k := k
+				racers = append(racers, solverSpec{"z3-new", func(f string, t int) []string {
+					return []string{"z3-new", fmt.Sprintf("smt.random_seed=%d", k*17), fmt.Sprintf("sat.random_seed=%d", k*17), fmt.Sprintf("-T:%d", t), f}
+				}})
+				tags = append(tags, fmt.Sprintf("seed%d/z3-new", k))
+				budgets = append(budgets, ext)
+			}
+			for _, sp := range solvers[1:] {
+				racers = append(racers, sp)
+				tags = append(tags, "race/"+sp.name)
+				budgets = append(budgets, ext/2)
+			}
+			ch := make(chan rr, len(racers))
+			rctx, rcancel := context.WithCancel(context.Background())
+			for k := range racers {
+				k := k
+				go func() {
+					st, out, secs := runSolverCtx(rctx, racers[k], query, budgets[k], fmt.Sprintf("%s.race%d", o.Name, k))
+					ch <- rr{st, out, tags[k], secs}
+				}()
+			}
+			longest := 0.0
+			for range racers {
+				x := <-ch
+				if x.secs > longest {
+					longest = x.secs
+				}
+				decided := r.Status == "unsat" || r.Status == "sat"
+				if decided && x.st != "unsat" && x.st != "sat" {
+					continue // a run that was stopped because another one had decided
+				}
+				if record(x.tag, x.st, x.out, x.secs) {
+					rcancel()
+				}
+			}
+			rcancel()
+			r.Seconds += longest
 		}
 	}
 	if want == "unsat" && r.Status != "unsat" && (r.Status != "sat" || len(r.Model) == 0) && len(o.GetVals) > 0 {
